@@ -404,6 +404,76 @@ pub fn state_ops_after<Q: Qx>(thorough: bool) -> Vec<CellDef> {
     )]
 }
 
+/// explicit order independence: three signed product terms applied in all six orders (and one order on a
+/// negated-then-negated quire) give the same bit image
+pub fn order_independence<Q: Qx>(thorough: bool) -> Vec<CellDef> {
+    let n = <Q::P as Fx>::N;
+    let es = <Q::P as Fx>::ES;
+    let al: Vec<u32> = thin(&alphabet(n, es, false), match n { 8 => 8, 16 => 40, _ => 180 } / if thorough { 3 } else { 1 });
+    // terms = operand pairs (x, y) from the thinned alphabet, with a sign
+    let na = al.len() as u64;
+    let nt = na * na * 2;
+    let al2 = al.clone();
+    let term = move |i: u64| -> (u32, u32, bool) { (al2[((i / 2) / na) as usize], al2[((i / 2) % na) as usize], i & 1 == 1) };
+    let sub: u64 = if thorough { 1 } else { 7 }; // the third term runs over every `sub`-th term in the quick tier
+    let n3 = nt / sub + 1;
+    vec![CellDef::new(
+        "C04",
+        format!("{}/order_independence", Q::NAME),
+        Space::func(nt * nt * n3, format!("three signed product terms over {} operands (every term x every term x every {}th term): all 6 orders", na, sub), move |i| {
+            let c = (i % n3) * sub % nt;
+            let b = (i / n3) % nt;
+            let a = i / n3 / nt;
+            (a as u128) << 80 | (b as u128) << 40 | c as u128
+        }),
+        move |k| {
+            let idx = [(k >> 80) as u64, ((k >> 40) & 0xff_ffff_ffff) as u64, (k & 0xff_ffff_ffff) as u64];
+            let t: Vec<(u32, u32, bool)> = idx.iter().map(|&i| term(i)).collect();
+            // exact model of the sum
+            let mut m = M::Val(W512::ZERO);
+            for &(x, y, neg) in &t {
+                m = m_add::<Q>(m, prod::<Q>(x, y), !neg);
+            }
+            if m == M::Out {
+                return Out::skip();
+            }
+            // intermediate sums of every order must stay in range as well
+            let orders: [[usize; 3]; 6] = [[0, 1, 2], [0, 2, 1], [1, 0, 2], [1, 2, 0], [2, 0, 1], [2, 1, 0]];
+            for o in orders {
+                let mut mm = M::Val(W512::ZERO);
+                for j in o {
+                    let (x, y, neg) = t[j];
+                    mm = m_add::<Q>(mm, prod::<Q>(x, y), !neg);
+                    if mm == M::Out {
+                        return Out::skip();
+                    }
+                }
+            }
+            let want = image::<Q>(m);
+            let got = guard(|| {
+                let mut all = true;
+                for o in orders {
+                    let mut q = Q::init();
+                    for j in o {
+                        let (x, y, neg) = t[j];
+                        if neg {
+                            q.sub_prod(p_of::<Q>(x), p_of::<Q>(y))
+                        } else {
+                            q.add_prod(p_of::<Q>(x), p_of::<Q>(y))
+                        }
+                    }
+                    all &= q.to_w() == want;
+                }
+                all
+            });
+            match got {
+                Some(ok) => Out { ok, nt: true, got: ok as u128, want: 1, ops: 18, panicked: false },
+                None => Out::cmp(None, 1, true),
+            }
+        },
+    )]
+}
+
 /// every tuple / array / method spelling performs the documented sum of products (C04 spellings)
 pub fn spellings<Q: Qx>(thorough: bool) -> Vec<CellDef> {
     let n = <Q::P as Fx>::N;
